@@ -29,10 +29,16 @@ func lookupNode[T any](urlTree *URLTree[T], url string) lookupNodeResult[T] {
 	currentNode := urlTree.Root
 	var params map[string]string
 	var foundWildcardNode *Node[T]
+	// the wildcard's own path and the parameters collected up to it: what a match
+	// through that wildcard reports, however far the walk went on afterwards
+	foundWildcardPath := ""
+	var foundWildcardParams map[string]string
 	urlPath := ""
 	for _, urlPart := range splitURL {
 		if currentNode.WildcardChild != nil {
 			foundWildcardNode = currentNode.WildcardChild
+			foundWildcardPath = urlPath + getDelimiter(urlPart) + wildcard
+			foundWildcardParams = copyParams(params)
 		}
 		child, found := currentNode.ConstantChildren[urlPart.Value]
 		if found && child.IsPartOfHost == urlPart.IsPartOfHost {
@@ -74,12 +80,11 @@ func lookupNode[T any](urlTree *URLTree[T], url string) lookupNodeResult[T] {
 
 		if foundWildcardNode != nil {
 			// Didn't find exact value, but found a matching wildcard
-			urlPath = urlPath + getDelimiter(urlPart) + wildcard
 			return buildLookupNodeResult(
 				true,
 				foundWildcardNode,
-				params,
-				urlPath,
+				foundWildcardParams,
+				foundWildcardPath,
 			)
 		}
 
@@ -92,16 +97,31 @@ func lookupNode[T any](urlTree *URLTree[T], url string) lookupNodeResult[T] {
 	}
 	// Exact value not found, check if node has wildcard child
 	if currentNode.WildcardChild != nil {
+		wildcardPath := urlPath +
+			getDelimiter(urlPart{IsPartOfHost: currentNode.WildcardChild.IsPartOfHost}) +
+			wildcard
 		return buildLookupNodeResult(
-			true, currentNode.WildcardChild, params, urlPath)
+			true, currentNode.WildcardChild, params, wildcardPath)
 	}
 	// Check if a matching wildcard was found in a parent node
 	if foundWildcardNode != nil {
-		return buildLookupNodeResult(true, foundWildcardNode, params, urlPath)
+		return buildLookupNodeResult(
+			true, foundWildcardNode, foundWildcardParams, foundWildcardPath)
 	}
 
 	// No match found, return the node that was found with noMatch
 	return buildLookupNodeResult(false, currentNode, params, urlPath)
+}
+
+func copyParams(params map[string]string) map[string]string {
+	if params == nil {
+		return nil
+	}
+	copied := make(map[string]string, len(params))
+	for name, value := range params {
+		copied[name] = value
+	}
+	return copied
 }
 
 func getDelimiter(urlPart urlPart) string {
